@@ -142,8 +142,37 @@ def bounded(ctx):
                 elif len(samples) < 3 and i and feats:
                     samples.append(dict(seq=s, k=k, features=feats, rotated=str(r.seq),
                                         rotated_features=[str(f.location) for f in r.features]))
+    # edit between two rotations of the same object: the record is rotated, then edited in place (same Seq object, same
+    # number of features: a feature moved and relabelled, a per-letter value changed, identifiers changed), then rotated
+    # again by the same amount -- the second result is the rotation of the record as it is *now*
+    from Bio.SeqFeature import FeatureLocation
+    for n in range(2, maxn + 1):
+        s = letters[:n]
+        for ti, feats in enumerate(bc.feature_tables(n, small=True)):
+            if not feats:
+                continue
+            for k in (1, n - 1, -1):
+                evals += 1
+                rec = CircularRecord(Seq(s), id="rid", name="rname", description="d", features=bc.build_features(feats),
+                                     annotations={"topology": "circular", "molecule_type": "DNA"},
+                                     letter_annotations={"phred": list(range(10, 10 + n))})
+                try:
+                    rec << k, rec >> k
+                    rec.features[0].location = FeatureLocation(0, 1, strand=-1)
+                    rec.features[0].qualifiers["label"] = ["edited"]
+                    rec.letter_annotations["phred"][0] = 99
+                    rec.id, rec.annotations["note"] = "edited", "edited"
+                    base2 = bc.observe(rec)
+                    pb = bc.compare_rotation(base2, bc.observe(rec << k), (-k) % n, n, "edited r<<k") + \
+                        bc.compare_rotation(base2, bc.observe(rec >> k), k % n, n, "edited r>>k")
+                except Exception as e:
+                    pb = ["raised %r" % (e,)]
+                distinct.add(("edit", n, ti, k))
+                if pb:
+                    viol.append(dict(name="edit_between_n%d_t%d_k%d" % (n, ti, k), what="%r rotated by %d, edited in place, rotated again: %s" % (
+                        s, k, "; ".join(pb[:2])), case=dict(seq=s, k=k, features=feats), observed=pb[:4]))
     return dict(evaluations=evals, distinct_nontrivial=len(distinct),
-                rule="words of pairwise distinct letters of length 1..%d x feature tables (simple, 2-part join, "
+                rule="a record rotated, edited in place and rotated again; words of pairwise distinct letters of length 1..%d x feature tables (simple, 2-part join, "
                      "origin-spanning in both representations, either strand, whole-length, whole-length source, no "
                      "location-less) x two letter-annotation tracks x every k in [-2n,3n]; compared: sequence, every "
                      "track position-wise, nucleotides denoted by every part (mod n), ids/qualifiers/annotations; "
